@@ -17,3 +17,5 @@ import SpoxModel.Props.C07
 #print axioms C07.faithful_snoc_valueless
 #print axioms C07.generated_sampling_guarded
 #print axioms C07.guarded_nodes_valueless
+#print axioms C07.sampling_guarded
+#print axioms C07.sampling_nodes_valueless
